@@ -198,26 +198,26 @@ Lemma should_skip_unknown : forall s sel sk, sm_matching (to_key sel) (t_reg s) 
 Proof. intros s sel sk H. unfold should_skip. rewrite H. reflexivity. Qed.
 
 (* a binding of a selector that is known once `import m` has run, placed AFTER the import: it is applied (never
-   skipped), whatever skip_unknown says *)
+   skipped), whatever skip_unknown says -- on the state in which the import is already recorded *)
 Theorem C15_known_after_import : forall env sk fname inc m isf al l1 sc sel arg v line rest s s1 im ic,
   str_in m (e_modules env) = true -> register_mod env m s = SOk s1 ->
   sm_matching (to_key sel) (t_reg s1) <> [] -> arg <> "" ->
   apply_stmts env sk fname inc (SImport m isf al l1 :: SBind sc sel arg v line :: rest) s im ic =
-  match bind s1 sc sel arg v (fname, line) with
-  | SErr e => (s1, with_loc (fname, line) (SErr e))
+  match bind (add_imports [m] s1) sc sel arg v (fname, line) with
+  | SErr e => (add_imports [m] s1, with_loc (fname, line) (SErr e))
   | SOk s2 => apply_stmts env sk fname inc rest s2 (im ++ [m]) ic
   end.
 Proof.
   intros env sk fname inc m isf al l1 sc sel arg v line rest s s1 im ic Hm Hr Hk Harg.
   cbn [apply_stmts]. rewrite Hm, Hr. destruct (String.eqb_spec arg "") as [E|_]; [contradiction|].
-  rewrite (C15_known_never_skipped s1 sel sk Hk). reflexivity.
+  rewrite (C15_known_never_skipped (add_imports [m] s1) sel sk Hk). reflexivity.
 Qed.
 (* in particular for the full selector of a configurable the module registers *)
 Corollary C15_known_after_import_full : forall env sk fname inc m isf al l1 sc c arg v line rest s s1 im ic,
   str_in m (e_modules env) = true -> register_mod env m s = SOk s1 -> In c (mod_regs env m) -> arg <> "" ->
   apply_stmts env sk fname inc (SImport m isf al l1 :: SBind sc (cs_sel c) arg v line :: rest) s im ic =
-  match bind s1 sc (cs_sel c) arg v (fname, line) with
-  | SErr e => (s1, with_loc (fname, line) (SErr e))
+  match bind (add_imports [m] s1) sc (cs_sel c) arg v (fname, line) with
+  | SErr e => (add_imports [m] s1, with_loc (fname, line) (SErr e))
   | SOk s2 => apply_stmts env sk fname inc rest s2 (im ++ [m]) ic
   end.
 Proof.
